@@ -161,7 +161,7 @@ def run_cases(exe, cases, d, tag="x", cpu_s=20, flags=""):
     with open(cf, "w") as f:
         for c in cases:
             f.write(json.dumps({'id': c['id'], 'src': c['src'], 'input': bytes(c.get('input', [])).hex(),
-                                'maxsteps': c.get('maxsteps', 300000)}, separators=(',', ':')) + "\n")
+                                'maxsteps': c.get('maxsteps', 300000), 'maxev': c.get('maxev', 4000)}, separators=(',', ':')) + "\n")
     open(of, "w").close()
     scratch = os.path.join(d, tag + ".scratch"); os.makedirs(scratch, exist_ok=True)
     start = 0; results = {}; guard = 0
